@@ -20,7 +20,7 @@ typedef struct dw_iface {
 } dw_iface;
 
 void dw_init(dw_iface *d, int iface);               /* deviceAppeared(): the four constructors */
-void dw_frame(dw_iface *d, void *recvBuffer);       /* lltdLoop body for one received frame (lines 289-404) */
+void dw_frame(dw_iface *d, void *recvBuffer, size_t recvLen);   /* lltdLoop body for one received frame of recvLen bytes (lines 289-404) */
 void dw_tick(dw_iface *d);                          /* select() timeout branch (lines 271-280) */
 extern void (*dw_on_hello)(dw_iface *d);            /* monitor hook, called from inside send_hello */
 #endif
